@@ -311,10 +311,9 @@ def holds(e, a, base):
         return dates.interval(a["lit"])[0] <= t <= dates.interval(a["lit2"])[1]
     if k == "colcol":
         if a["col"] in ("name", "ext"):
+            # two attributes of one entry are compared as they are: a `*` in the right-hand VALUE is no pattern
             l, r = model.column(e, a["col"]), model.column(e, a["lit"])
-            if glob.is_glob(r):
-                return None
-            return text_holds(a["op"], r, l)
+            return (l == r) if a["op"] in ("=", "===") else (l != r)
         l, r = num_value(e, a["col"], base), num_value(e, a["lit"], base)
         return num_cmp(a["op"], l, r)
     raise KeyError(k)
